@@ -253,6 +253,43 @@ def run(ctx):
                 if v != Fraction(a / b):
                     ctx.fail(f"f64-div-not-ieee:{copy}", {"a": a, "b": b, "obs": val, "expected": a / b})
 
+    # ---------------------------------------------------------------- the ROUTES to the kernels (spec/GenDiv.tla), end to end:
+    # `/ // %` as binary operators and as compound assignments on a variable, a list element, a dict value, a field and a
+    # field reached through `mut self`, every sign combination and a zero divisor, int and dyadic float operands
+    from lib import pipeline
+    with ctx.timed("tlc_routes"):
+        gd = common.tlc(ctx, "GenDiv", cfg="GenDiv", workers=4, timeout=900)
+    common.require_tlc_ok(ctx, gd, "GenDiv / OnlyZeroDivision / ZeroText")
+    drows = gd["cases"]["CASE"]
+    if ctx.quick:
+        # every (operator, target, kinds) once per run, signs rotating with the seed
+        rnd = common.rng(ctx, "c04-routes")
+        groups = {}
+        for r in drows:
+            groups.setdefault(tuple(sorted(t for t in r["feats"] if not t.startswith("sign:"))), []).append(r)
+        drows = [rnd.choice(groups[g]) for g in sorted(groups)] + rnd.sample(drows, 30)
+    dcases = [pipeline.div_case(r, k) for k, r in enumerate(drows)]
+    pipeline.self_check_progs(ctx, dcases)
+    with ctx.timed("e2e_routes"):
+        dev = pipeline.evaluate(ctx, dcases, per_batch=40)
+    n_routes = 0
+    for c, e in zip(dcases, dev):
+        if e["stage"] in ("ran", "abort"):
+            n_routes += 1
+            n_eval += 1
+            distinct.add(("route",) + tuple(c["tags"]))
+            if e["symptom"]:
+                ctx.fail("route:" + e["symptom"], {"src": c["body"], "decls": c["decls"], "detail": e["detail"],
+                                                   "expected": c["expect"]}, "the division family reached through this target form "
+                         "does not compute the documented value / failure", tags=c["tags"])
+        elif e["stage"] in ("emit", "build"):
+            ctx.stats.setdefault("routes_not_built(C02 material)", []).append(c["tags"])
+        elif e["stage"] == "check":
+            ctx.stats.setdefault("routes_rejected_by_checker", []).append(c["tags"])
+    ctx.stats["routes_run"] = n_routes
+    if n_routes < len(dcases) // 2:
+        raise ToolError(f"only {n_routes} of {len(dcases)} division-route programs could be built and run")
+
     common.write_evidence(ctx, "model_checking", {
         "states": sum(r["states"] for r in ctx.tlc_runs),
         "transitions": sum(r["states"] for r in ctx.tlc_runs),
@@ -261,7 +298,8 @@ def run(ctx):
         "distinct_nontrivial": len(distinct),
         "rule": "B1: every TLC table row (ints and dyadic floats k/8, every int/float pairing) x every kernel copy; "
                 "non-trivial = operands of opposite sign with non-zero remainder (the sign-correction branch), distinct "
-                "by (fn, types, a, b); plus distinct 64-bit recorded events",
+                "by (fn, types, a, b); plus distinct 64-bit recorded events; plus GenDiv route programs (operator x target form x "
+                "operand kinds x signs) compiled and run",
         "table_rows": len(rows),
         "i64_events_recorded": len(events),
         "apalache_all_i64": "KernelsOK /\\ NoOverflow for all admissible (a, b): NoError",
